@@ -24,9 +24,9 @@ RULE = ('one evaluation = one explored path = one equivalence class of input str
 BOUNDS = {
     'quick': 'all strings of L<=3 arbitrary code points (0..0x10FFFF) under the default table; L<=3 under @-letter and verbatim; '
              'L<=2 under every table reached from the default by one \\catcode(ch,code) with ch in a 7-character alphabet and code 0..15 symbolic; '
-             'lexer-state prefixes x L<=2',
+             'lexer-state prefixes x L<=2; a category code (one of 7 characters, code 0..15 symbolic) reassigned between the first and the second token request of 7 prefixes x L<=1',
     'thorough': 'L<=4 default; L<=4 @-letter, verbatim; L<=3 with one reassignment (7-char alphabet x 16 codes), L<=2 with the 13-char alphabet; two reassignments: '
-                '3-char alphabet at L<=2, 7-char alphabet at L<=1, one character twice at L<=2; all 27 lexer-state prefixes x L<=3; one \\let alias table',
+                '3-char alphabet at L<=2, 7-char alphabet at L<=1, one character twice at L<=2; all 27 lexer-state prefixes x L<=3; one \\let alias table; mid-stream reassignment after the first or second token of 12 prefixes x L<=2',
 }
 ASSUMPTIONS = ['the StringIO source is replaced by a 10-line file-like stub serving one character per read(1)',
                'Token.__eq__/__ne__/__lt__/__str__ are re-stated in the SymTok proxy (validated against the real classes at the start of every run)',
@@ -54,6 +54,11 @@ for _t in ['ab', '1', '\\ab', '\\%', '~', '{', '$']:
     STATE_PREFIXES += [_t + '%\n', 'x\n\n' + _t + '%\n']
 
 
+# a \catcode assignment takes effect between two token requests: text that follows the first token(s) of these prefixes
+MID_PREFIXES = ['\\ab ', '\\ab', 'x ', 'x', '\\%', 'x\n', '\\ab\t', '\\ab  ', '\\% ', '~ ', '1%', '\\ab\n']
+MID_ALPHA = [' ', 'a', '%', '\\', '\n', '\t', '^']
+
+
 def reset():
     pass
 
@@ -72,6 +77,12 @@ def ref_cat(e, c, table, overrides):
 
 def ref_lex(e, chars, cat):
     """reference lexer: TeX's rules with the conventions listed in ASSUMPTIONS; returns [(catcode, [chars])]"""
+    return list(ref_lex_iter(e, chars, cat))
+
+
+def ref_lex_iter(e, chars, cat):
+    """the same lexer delivering one token per request: a character is categorised when it is read, never earlier, so `cat` may
+    change between two requests (the character that ends a control word is put back and categorised again by the next request)"""
     buf = list(chars)
     out = []
 
@@ -109,6 +120,7 @@ def ref_lex(e, chars, cat):
         code, ch = ev
         if code in (11, 12):
             out.append((code, [ch]))
+            yield out[-1]
             state = 'M'
         elif code == 10:
             if state in 'SN':
@@ -116,12 +128,14 @@ def ref_lex(e, chars, cat):
                 continue
             state = 'S'
             out.append((10, [' ']))
+            yield out[-1]
         elif code == 5:
             if state == 'S':
                 state = 'N'
                 continue
             if state == 'M':
                 out.append((10, [' ']))
+                yield out[-1]
                 state = 'N'
                 e.tag('eol-space')
             else:
@@ -130,12 +144,14 @@ def ref_lex(e, chars, cat):
                 if out and out[-1][0] == 0 and out[-1][1] == list('par'):
                     continue
                 out.append((0, list('par')))
+                yield out[-1]
                 e.tag('par')
         elif code == 0:
             state = 'M'
             ev2 = event()
             if ev2 is None:
                 out.append((0, []))
+                yield out[-1]
             else:
                 c2, ch2 = ev2
                 if c2 == 11:
@@ -150,13 +166,16 @@ def ref_lex(e, chars, cat):
                             buf.insert(0, ev3[1])
                             break
                     out.append((0, word))
+                    yield out[-1]
                     state = 'S'
                     e.tag('ctrl-word')
                 elif c2 == 5:
                     out.append((10, [' ']))
+                    yield out[-1]
                     state = 'S'
                 else:
                     out.append((0, [ch2]))
+                    yield out[-1]
                     e.tag('ctrl-symbol')
         elif code == 14:
             discard_line()
@@ -164,12 +183,13 @@ def ref_lex(e, chars, cat):
             e.tag('comment')
         elif code == 13:
             out.append((0, list('active::') + [ch]))
+            yield out[-1]
             state = 'M'
             e.tag('active')
         else:
             out.append((code, [ch]))
+            yield out[-1]
             state = 'M'
-    return out
 
 
 def h_lex(e, L, table='default', re_alpha=None, nre=0, prefix='', lets=False, re_codes=None, re_codes2=None):
@@ -221,6 +241,59 @@ def h_lex(e, L, table='default', re_alpha=None, nre=0, prefix='', lets=False, re
         e.nontriv()
 
 
+def h_midstream(e, L, prefix, re_alpha, after):
+    """a category code is reassigned between two token requests: every character read afterwards has its new category"""
+    doc = TeXDocument()
+    ctx = doc.context
+    overrides = []
+    ch = re_alpha[e.choice(len(re_alpha), 'rech')]
+    code = e.int('recode', 0, 15)
+    chars = list(prefix) + [e.char('c%d' % i) for i in range(L)]
+    tex = TeX(doc)
+    tex.input(Src(chars))
+    got = []
+    ref = ref_lex_iter(e, chars, lambda c: ref_cat(e, c, 'default', overrides))
+    exp = []
+    done = [False]
+
+    def reassign():
+        ctx.catcode(ch, code)
+        overrides.append((ch, e.concretize(code.z) if e.symbolic else code))
+        done[0] = True
+    try:
+        it = tex.itertokens()
+        while True:
+            if len(got) == after and not done[0]:
+                reassign()
+            try:
+                w = next(ref)
+            except StopIteration:
+                w = None
+            try:
+                tok = next(it)
+            except StopIteration:
+                tok = None
+            if tok is not None:
+                got.append(tok)
+            if w is not None:
+                exp.append(w)
+            if tok is None and w is None:
+                break
+            if len(got) > 4 * len(chars) + 8:
+                e.check(False, 'tokenizer does not terminate (more than 4L+8 tokens)', 'nontermination')
+                break
+    except (TypeError, ValueError, IndexError, AttributeError, KeyError, RecursionError, UnicodeError) as ex:
+        e.fail_exception(ex)
+        return
+    e.observe([[t.catcode, text_of(t)] for t in got])
+    e.check(len(got) == len(exp), 'token count after a mid-stream \\catcode change: got %d expected %d' % (len(got), len(exp)), 'stream-length:midstream')
+    for tok, (c, txt) in zip(got, exp):
+        e.check(tok.catcode == c, 'token category after a mid-stream \\catcode change: got %r expected %r' % (tok.catcode, c), 'token-category:midstream')
+        e.check(eq(text_of(tok), api.cat(txt)), 'token text differs (category %d)' % c, 'token-text:midstream')
+    if done[0] and len(exp) > after:
+        e.nontriv()
+
+
 def jobs(tier, seed):
     J = []
     if tier == 'quick':
@@ -233,6 +306,8 @@ def jobs(tier, seed):
         for p in STATE_PREFIXES:
             J.append(dict(harness='h_lex', params=dict(L=2, prefix=p), label='state-prefix %r L=2' % p))
         J.append(dict(harness='h_lex', params=dict(L=2, prefix='\\ab', lets=True), label='let alias L=2'))
+        for p in MID_PREFIXES[:7]:
+            J.append(dict(harness='h_midstream', params=dict(L=1, prefix=p, re_alpha=MID_ALPHA, after=1), label='mid-stream reassignment after %r L=1' % p, no_twin=p != '\\ab '))
     else:
         J.append(dict(harness='h_lex', params=dict(L=4), split=28, label='default L=4'))
         J.append(dict(harness='h_lex', params=dict(L=4, table='atletter'), split=28, label='atletter L=4'))
@@ -246,4 +321,7 @@ def jobs(tier, seed):
             J.append(dict(harness='h_lex', params=dict(L=3, prefix=p), split=14, label='state-prefix %r L=3' % p))
         J.append(dict(harness='h_lex', params=dict(L=3, prefix='\\ab', lets=True), label='let alias L=3'))
         J.append(dict(harness='h_lex', params=dict(L=3, lets=True), label='let alias free L=3'))
+        for p in MID_PREFIXES:
+            for after in (1, 2):
+                J.append(dict(harness='h_midstream', params=dict(L=2, prefix=p, re_alpha=MID_ALPHA, after=after), split=14, label='mid-stream reassignment after token %d of %r L=2' % (after, p), no_twin=True))
     return J
